@@ -109,6 +109,18 @@ def run(c):
                  'monthly': [[list(k) if isinstance(k, tuple) else [k], num(v)] for k, v in j['monthly_agg_returns']],
                  'yearly': [[[k] if not isinstance(k, tuple) else list(k), num(v)] for k, v in j['yearly_agg_returns']]},
     }
+    # two statistics objects alive at once: building the second must leave what the first one reports untouched
+    try:
+        import copy as _copy
+        import json as _json
+        first = JSONStatistics(df.copy(), alloc, periods=P, strategy_id='first', strategy_name='first')
+        before = _json.dumps(first.statistics, sort_keys=True, default=str)
+        other_df = pd.DataFrame({'Equity': [e * (1.0 + 0.01 * (i % 7)) for i, e in enumerate(eq)]}, index=idx)
+        JSONStatistics(other_df, alloc, periods=P, benchmark_curve=bdf.copy(), strategy_id='second', benchmark_id='bench')
+        after = _json.dumps(first.statistics, sort_keys=True, default=str)
+        res['two_objects'] = 'same' if before == after else 'the first object now reports other figures'
+    except Exception as e:
+        res['two_objects'] = 'raised ' + type(e).__name__
     return res
 
 
